@@ -99,6 +99,13 @@ def gen_mean(rng, dim, n):
     return [[0] * dim]
   if kind == "linear":
     return [[0] * dim] + [[int(j == k) for j in range(dim)] for k in range(dim)]
+  if rng.random() < 0.3:
+    # exactly one monomial, and not the constant one: a one-coefficient mean that is not a constant mean
+    # (shape of a round-4 seeded change: single coefficient mistaken for "zero or constant mean")
+    t = [0] * dim
+    for _ in range(rng.randint(1, 2)):
+      t[rng.randrange(dim)] += rng.randint(1, 2)
+    return [t]
   terms = {tuple([0] * dim)} if rng.random() < 0.7 else set()
   want = rng.randint(1, 3)
   while len(terms) < want + 1:
